@@ -200,7 +200,9 @@ class Scheduler:
 
     def step(self, name: str) -> Actor:
         a = self.actors[name]
-        if not self.can_run(a):
+        # a blocked actor is simply woken: it retries what it was waiting for and blocks again when it is still not
+        # available (the availability probe of a database lock can change its mind between enabled() and step())
+        if a.finished or a.state in ("new", "running"):
             raise RuntimeError(f"actor {name} cannot run (state={a.state})")
         self.trace.append(name)
         self.nsteps += 1
@@ -305,6 +307,48 @@ def pct(seed: int, depth: int, est_steps: int) -> Callable[[Scheduler, list[str]
             prio[best] = -float(next(low))
             best = max(en, key=lambda n: prio[n])
         return best
+    return pol
+
+
+def park_at(victim: str, k: int) -> Callable[[Scheduler, list[str]], str]:
+    """One slow actor: `victim` takes k steps, then stands still while everybody else (including actors spawned
+    meanwhile) runs to completion without preemption, then goes on.  The family {park_at(a, k)} is the part of
+    the 1-preemption schedules that a bounded DFS reaches last, because the free choices in front of it are many."""
+    state = {"n": 0}
+
+    def pol(s: Scheduler, en: list[str]) -> str:
+        if victim in en and state["n"] < k:
+            state["n"] += 1
+            return victim
+        others = [n for n in en if n != victim]
+        if others:
+            if s.trace and s.trace[-1] in others:
+                return s.trace[-1]
+            return others[0]
+        return victim
+    return pol
+
+
+def park_multi(victims: list[tuple[str, int]]) -> Callable[[Scheduler, list[str]], str]:
+    """Several slow actors: each victim (name, k) takes k steps as soon as it can and then stands still; the
+    others run to completion without preemption; when nobody else can run the victims go on, first one first."""
+    quota = dict(victims)
+    taken = {n: 0 for n in quota}
+
+    def pol(s: Scheduler, en: list[str]) -> str:
+        for n in quota:
+            if n in en and taken[n] < quota[n]:
+                taken[n] += 1
+                return n
+        others = [n for n in en if n not in quota]
+        if others:
+            if s.trace and s.trace[-1] in others:
+                return s.trace[-1]
+            return others[0]
+        for n in quota:
+            if n in en:
+                return n
+        return en[0]
     return pol
 
 
